@@ -37,6 +37,42 @@ def _make_gen(entry, pkmod, src, r, k):
                                                    skip_header_bytes=k)
 
 
+class _ShortRaw(__import__("io").RawIOBase):
+    """A seekable raw stream whose readinto() never delivers more than 3 bytes at a time."""
+    def __init__(self, data):
+        self._d, self._o = data, 0
+
+    def readable(self):
+        return True
+
+    def seekable(self):
+        return True
+
+    def seek(self, off, whence=0):
+        self._o = off if whence == 0 else self._o + off if whence == 1 else len(self._d) + off
+        return self._o
+
+    def tell(self):
+        return self._o
+
+    def readinto(self, b):
+        n = min(3, len(b), len(self._d) - self._o)
+        b[:n] = self._d[self._o:self._o + n]
+        self._o += n
+        return n
+
+
+def _file_family(kind, stream):
+    import gzip
+    import io
+    if kind == "gzip":
+        buf = io.BytesIO()
+        with gzip.GzipFile(fileobj=buf, mode="wb", mtime=0) as g:
+            g.write(stream)
+        return gzip.GzipFile(fileobj=io.BytesIO(buf.getvalue()), mode="rb")
+    return io.BufferedReader(_ShortRaw(stream), buffer_size=4)
+
+
 def _sized_run(entry, pkmod, src, r, k, expected):
     """Bytes / file sources: everything, then StopIteration."""
     g = _make_gen(entry, pkmod, src, r, k)
@@ -147,6 +183,22 @@ def _task(task):
                             t.violation({"kind": "framing-mismatch", "source": kind},
                                         {**base, "source": kind, "r": r},
                                         expected=[p.hex() for p in expected], observed=bad)
+                # (b') other members of the file family: a gzip file object and a BufferedReader over a raw stream that answers every raw
+                # read with at most 3 bytes (both are io.BufferedIOBase, which is what the framer asks for)
+                if thr is None:
+                    for kind in ("gzip", "buffered-over-short-raw"):
+                        for r in (None, 1, 7, L + 1):
+                            try:
+                                with case_alarm(20):
+                                    bad = _sized_run(entry, pkmod, _file_family(kind, stream), r, k, expected)
+                            except CaseTimeout:
+                                bad = {"end": "timeout"}
+                            t.evals += 1
+                            t.traces += 1
+                            t.outcomes["sized:" + ("ok" if bad is None else "mismatch")] += 1
+                            if bad:
+                                t.violation({"kind": "framing-mismatch", "source": kind}, {**base, "source": kind, "r": r},
+                                            expected=[p.hex() for p in expected], observed=bad)
                 # (c) scripted socket, every fragmentation
                 if not expected:
                     continue
@@ -221,6 +273,31 @@ def _long_sized_task(task):
                             t.violation({"kind": "framing-mismatch", "source": kind, "long": True},
                                         {"seq": list(seq), "k": k, "entry": entry, "threshold": None, "source": kind, "r": r},
                                         expected=len(expected), observed=bad, note="a longer stream is framed differently from a sized source")
+                # compressed files on disk (gzip.open / bz2.open / lzma.open objects are io.BufferedIOBase; their file descriptor and on-disk size
+                # belong to the COMPRESSED file, the stream the framer must frame is the decompressed one)
+                if len(seq) >= 8 and k in (0, 4):
+                    import bz2
+                    import gzip
+                    import lzma
+                    for cname, opener in (("gzip-file", gzip.open), ("bz2-file", bz2.open), ("lzma-file", lzma.open)):
+                        cpath = os.path.join(task["work"], f"c02z_{os.getpid()}.{cname}")
+                        with opener(cpath, "wb") as f:
+                            f.write(stream)
+                        for r in (None, 5):
+                            try:
+                                with case_alarm(20), opener(cpath, "rb") as src:
+                                    bad = _sized_run("ccsds", real, src, r, k, expected)
+                            except CaseTimeout:
+                                bad = {"end": "timeout"}
+                            t.evals += 1
+                            t.traces += 1
+                            t.outcomes["long-sized:" + ("ok" if bad is None else "mismatch")] += 1
+                            if bad:
+                                t.violation({"kind": "framing-mismatch", "source": cname, "long": True},
+                                            {"seq": list(seq), "k": k, "entry": "ccsds", "threshold": None, "source": cname, "r": r,
+                                             "compressed_size": os.path.getsize(cpath), "stream_size": len(stream)},
+                                            expected=len(expected), observed=bad, note="a compressed file on disk is framed differently from its decompressed content")
+                        os.unlink(cpath)
                 # file-like sources handed over at a non-zero position: an in-memory file and a real file are the same kind of
                 # source, so whatever the framer does with the position it must do for both (differential oracle only)
                 if len(seq) <= 4:
@@ -378,12 +455,14 @@ def run(ctx):
         "programs": tally.programs,
         "exhaustive": True,
         "bound": (f"all sequences of <= {max_len} packets over a 3-packet palette (data lengths 1, 2, 5), prefix lengths "
-                  f"{'0,1,4' if ctx.quick else '0..7'}; bytes; BytesIO and real file with every read size None,1..L+1; "
+                  f"{'0,1,4' if ctx.quick else '0..7'}; bytes; BytesIO and real file with every read size None,1..L+1; a gzip file object and a BufferedReader over a raw stream "
+                  "delivering <= 3 bytes per raw read, read sizes None,1,7,L+1; "
                   "scripted socket with read sizes {None,1,2,3,5,6,7,8,L} x EVERY fragmentation (state-hashed DFS); "
                   "both entry points; trim literal rewritten to {0,5,17} and reached for real with a 21 MB stream; "
                   "max-size packet; stateless cross-check of the state merging on short streams; sized sources (bytes, BytesIO with 5 read sizes) additionally on "
                   "every 4-packet sequence and on homogeneous/alternating sequences of 5..12 packets with prefix lengths 0,1,2,3,4,7; "
-                  "io.BytesIO vs real file handed over at positions {1, 6, k+7, L} (4-packet sequences, differential)"),
+                  "io.BytesIO vs real file handed over at positions {1, 6, k+7, L} (4-packet sequences, differential); gzip / bz2 / lzma files on disk for the "
+                  "sequences of >= 8 packets (compressed size smaller than the stream)"),
         "rule": ("a case is one (packet sequence, prefix length) pair explored under every source configuration; "
                  "non-trivial = sequences with >= 2 packets (a packet boundary exists inside the stream) plus the big-stream runs"),
     }
@@ -408,6 +487,18 @@ def replay(case):
             return None
         entry = case["entry"]
         src_kind = case["source"]
+        if src_kind in ("gzip-file", "bz2-file", "lzma-file"):
+            import bz2, gzip, lzma, tempfile
+            opener = {"gzip-file": gzip.open, "bz2-file": bz2.open, "lzma-file": lzma.open}[src_kind]
+            with tempfile.TemporaryDirectory() as d:
+                cpath = os.path.join(d, "stream.z")
+                with opener(cpath, "wb") as f:
+                    f.write(stream)
+                with opener(cpath, "rb") as src:
+                    bad = _sized_run(entry, pkmod, src, case.get("r"), k, expected)
+            if bad:
+                return {"sig": {"kind": "framing-mismatch", "source": src_kind, "long": True}, "case": case, "observed": bad}
+            return None
         if src_kind == "positioned":
             import io, tempfile
             a = io.BytesIO(stream)
@@ -423,8 +514,8 @@ def replay(case):
                 return {"sig": {"kind": "source-kinds-disagree", "history": "file-like source handed over at a non-zero position"},
                         "case": case, "observed": {"bytesio": oa, "file": ob}}
             return None
-        if src_kind in ("bytes", "bytesio", "file"):
-            src = stream if src_kind == "bytes" else CountingBytesIO(stream)
+        if src_kind in ("bytes", "bytesio", "file", "gzip", "buffered-over-short-raw"):
+            src = stream if src_kind == "bytes" else _file_family(src_kind, stream) if src_kind in ("gzip", "buffered-over-short-raw") else CountingBytesIO(stream)
             bad = _sized_run(entry, pkmod, src, case.get("r"), k, expected)
             if bad:
                 return {"sig": {"kind": "framing-mismatch", "source": src_kind}, "case": case, "observed": bad}
